@@ -30,7 +30,7 @@ def q(x):
 
 def gen_real(rng):
     """a program of real epgpy operators, described by constructor expressions (evaluated with `epg` in scope)"""
-    fam = rng.choice(["1d", "nd", "nd", "float", "halfgrid", "xchg", "diffusion", "diffusion", "trunc", "trunc"])
+    fam = rng.choice(["1d", "nd", "nd", "float", "floatcap", "halfgrid", "xchg", "diffusion", "diffusion", "trunc", "trunc"])
     ops, init, opts = [], "epg.StateMatrix()", {}
 
     def rf():
@@ -84,11 +84,35 @@ def gen_real(rng):
                 ops.append("epg.S(np.array(%s)%s)" % (kv if batched else kv[0], extra))
             elif k == "reset": ops.append("epg.RESET")
             else: ops.append("epg.PD(%s, reset=%s)" % (rng.choice([0.5, 2, "[1, 2]"]), rng.choice([True, False])))
+    elif fam == "floatcap":
+        # float shifts of equal area along different axes under a cap on the number of phase states: several +-k groups
+        # share the same |k|, so a cap applied by rank would keep a state and drop its mirror
+        dim = rng.choice([2, 2, 3])
+        init = "epg.StateMatrix(kgrid=%s, max_nstate=%s)" % (rng.choice([0.25, 0.5, 1.0]), rng.choice([1, 3, 1, 3, 2, 5]))
+        ax = 0
+        for j in range(rng.randint(4, 9)):
+            ops.append(rf())
+            if rng.random() < 0.4:
+                ops.append(relax())
+            v = [0.0] * dim
+            v[ax % dim] = float(rng.choice([1.0, 1.0, -1.0]))
+            ax += rng.choice([1, 1, 0, 2])
+            ops.append("epg.S(np.array(%s))" % v)
     elif fam == "float":
         dim = rng.choice([1, 2, 3])
-        init = "epg.StateMatrix(kgrid=%s)" % rng.choice([0.25, 1.0, 3.0])
+        # half of the float programs also carry a cap on the number of phase states (max_nstate), which the float
+        # back-ends must either ignore or apply to whole +-k groups: the state matrix has to stay well-formed
+        cap = rng.choice(["", "", ", max_nstate=1", ", max_nstate=3", ", max_nstate=2"])
+        init = "epg.StateMatrix(kgrid=%s%s)" % (rng.choice([0.25, 1.0, 3.0]), cap)
+        unit_axes = bool(cap) and dim >= 2 and rng.random() < 0.6
         for _ in range(n):
             k = rng.choice(["rf", "rf", "relax", "shift", "shift", "shift", "reset"])
+            if k == "shift" and unit_axes:
+                # equal areas along different axes: several +-k groups share the same |k|
+                v = [0.0] * dim
+                v[rng.randrange(dim)] = float(rng.choice([1.0, 1.0, -1.0]))
+                ops.append("epg.S(np.array(%s))" % v)
+                continue
             if k == "rf": ops.append(rf())
             elif k == "relax": ops.append(relax())
             elif k == "shift":
